@@ -207,15 +207,26 @@ def run(tier, t0):
         else:
             acc.n['validated'] += len(enum)
         # the other public enumerators of a level: uncompact of the world cell / of the twelve faces, and level-by-level children
-        if r <= 6 and not acc.violations:
+        if not acc.violations:
             others = {}
             try:
+                # multi-level jumps from every cell of levels 0, 1 and 2 (parents with a non-zero position included) ...
+                for via in range(0, min(r, 3)):
+                    base = sorted(level_ids[via])
+                    others[f'cell_to_children(c, {r}) over level {via}'] = [x for c in base for x in a5.cell_to_children(c, r)]
+                    if r <= 6:
+                        others[f'uncompact(level {via}, {r})'] = a5.uncompact(list(base), r)
+                if r > 6:
+                    raise StopIteration
+                # ... and the remaining public enumerators of a level
                 others['uncompact([world], r)'] = a5.uncompact([ser.WORLD_CELL], r)
                 others['uncompact(get_res0_cells(), r)'] = a5.uncompact(list(a5.get_res0_cells()), r)
                 step = [ser.WORLD_CELL]
                 for rr in range(0, r + 1):
                     step = [ch for c in step for ch in a5.cell_to_children(c, rr)]
                 others['children level by level'] = step
+            except StopIteration:
+                pass
             except Exception as e:
                 acc.violation(f'level-enum2-raises:level={r}', f'enumerating level {r} ({len(others)} enumerators done) raised {e!r}', case)
                 continue
